@@ -10,7 +10,9 @@ use std::process::{Command, Stdio};
 use std::sync::Mutex;
 use std::time::Instant;
 
-const VERIF_DIR: &str = "/verif";
+fn verif_dir() -> String {
+    std::env::var("TCSIM_OUT_DIR").unwrap_or_else(|_| "/verif".to_string())
+}
 
 static PANIC_MSG: Mutex<Option<String>> = Mutex::new(None);
 
@@ -233,7 +235,7 @@ impl KnownFinding {
 }
 
 fn load_known() -> KnownFindings {
-    match std::fs::read_to_string(format!("{VERIF_DIR}/known_findings.json")) {
+    match std::fs::read_to_string("/verif/known_findings.json".to_string()) {
         Ok(s) => serde_json::from_str(&s).unwrap_or_default(),
         Err(_) => KnownFindings::default(),
     }
@@ -361,9 +363,10 @@ pub fn cmd_check(args: &[String]) -> i32 {
         }
     }
     let mut exit = 0;
-    let _ = std::fs::create_dir_all(format!("{VERIF_DIR}/replays"));
+    let out_dir = verif_dir();
+    let _ = std::fs::create_dir_all(format!("{out_dir}/replays"));
     for (class, fv) in &reported {
-        let path = format!("{VERIF_DIR}/replays/{id}-{seed}-{}-{}.json", fv.i, sanitize(class));
+        let path = format!("{out_dir}/replays/{id}-{seed}-{}-{}.json", fv.i, sanitize(class));
         let doc = json!({
             "property": id,
             "check": id,
@@ -430,8 +433,8 @@ pub fn cmd_check(args: &[String]) -> i32 {
         "wall_s": wall,
         "violations": reported.len(),
     });
-    let _ = std::fs::create_dir_all(format!("{VERIF_DIR}/evidence"));
-    let evp = format!("{VERIF_DIR}/evidence/{id}.json");
+    let _ = std::fs::create_dir_all(format!("{out_dir}/evidence"));
+    let evp = format!("{out_dir}/evidence/{id}.json");
     if std::fs::write(&evp, serde_json::to_string_pretty(&ev).unwrap()).is_err() {
         eprintln!("cannot write {evp}");
         harness_error = true;
